@@ -194,6 +194,8 @@ impl ReaderGroup {
         let mut max_diff: usize = 0;
         unsafe {
             for reader_ptr in &self.readers {
+                #[cfg(multiqueue2_verif)]
+                crate::verif_hooks::touch(self as *const ReaderGroup);
                 // If a reader has passed the writer during this function call
                 // then what must have happened is that somebody else has completed this
                 // written to the queue, and a reader has bypassed it. We should retry
